@@ -993,6 +993,16 @@ def run(run):
             run.held('RECURSION', 'child / removeChild on every small chain (interpreted)', fx.one('graphite2::Slot::child').where(), '%d abstract executions' % cases_)
     except AnalysisBroken as ex:
         run.broken('RECURSION', 'child / removeChild on every small chain (interpreted)', str(ex), '')
+    from .util import share as _share
+    if not getattr(run, '_sharing', False):
+        run._sharing = True
+        try:
+            _share(run, 'c04', ['DETACH'], 'FREEDSLOT')        # a deleted slot that is never collected is later walked through its parent's child chain (shared with C04)
+            _share(run, 'c12', ['NULSTOP', 'ADVANCEBOUND'], 'CONST')      # reading the text stays inside the caller's buffer (shared with C12)
+            _share(run, 'c17', ['ZONESET'], 'CONST')         # the exclusion vector is walked with iterators that survive its own insertions (shared with C17)
+            _share(run, 'c19', ['UNDO'], 'CONST')            # justification records and their pool (shared with C19)
+        finally:
+            run._sharing = False
     recursion(run, fx)
     looplimit(run, fx)
     from . import ordint as O_
